@@ -23,6 +23,8 @@ import CookModel.Lemmas.ClosingStream
 import CookModel.Lemmas.CollectorRefIff
 import CookModel.Lemmas.CollectorShape
 import CookModel.Lemmas.CollectorLast
+import CookModel.Lemmas.RoundtripRefsX
+import CookModel.Lemmas.RoundtripDocRefs
 /-
   C01  Printing a recipe as Cooklang and parsing it returns that recipe.
 
@@ -1415,5 +1417,170 @@ example : (parseEvents C01_toyEnv [] [.start .step, .cookware C01_exPot1, .cookw
     some ([.definition [1] true, .reference 0], [⟨none, [.step ⟨[.cookware 0, .cookware 1], 1⟩]⟩], []) := by rfl
 example : CwRefChecksQuiet C01_exPotRef (cwOf C01_toyEnv C01_exPotRef).quantity (cwOf C01_toyEnv C01_exPot1) true :=
   ⟨rfl, by decide, fun rq dq h => by cases h⟩
+
+/-! ### documents with references of all three kinds, from the printed characters to the recipe -/
+
+/-- **An intermediate reference that resolves is stored and nothing is reported.**  The collector is in define
+    mode `all` inside a step block; the event is an ingredient with intermediate data `d` (`@&(~1)name{}`)
+    that carries `&` and none of `@`, `-`, `+` (RECIPE, HIDDEN, NEW: `inter-ref-conflicting-modifiers`),
+    whose amount raises no scaling-lock warning, whose number is not negative, and whose target exists
+    (`interRefTarget` on the content of the current section and the number of finished sections = `.ok rel`;
+    `C01_intermediate_target_spec` says which position that is).  Then the event appends the ingredient as
+    written with `relation := rel` (no name lookup, no back-link), appends the item to the open step, and
+    changes nothing else: no diagnostic, no panic. -/
+theorem C01_intermediate_ref_event {α : Type} [Arith α] (env : Env) (input : Str) (li : Loc (PIngredient α))
+    (s : Col α) (items : List Item) (d : Loc InterData) (rel : IngredientRelation)
+    (hd : s.defineMode = .all) (hb : s.block = some (.step items)) (hinter : li.val.inter = some d)
+    (hlock : ∀ q, li.val.quantity = some q → lockOK q.val.value true)
+    (hREF : li.val.modifiers.val.contains Modifiers.REF = true)
+    (hvalid : li.val.modifiers.val.bits &&& (Modifiers.RECIPE ||| Modifiers.HIDDEN ||| Modifiers.NEW) = 0)
+    (hnn : 0 ≤ d.val.val) (ht : interRefTarget s.cur.content s.sections.length d.val = .ok rel) :
+    (processEvent env input (.ingredient li) s).2 =
+      { s with
+        locIngr := s.locIngr.push li,
+        ingredients := s.ingredients.push { ingrOf env li with relation := rel },
+        block := some (.step (items ++ [.ingredient s.ingredients.size])) } :=
+  rtax_proc_ingredient_inter env input li s items d rel hd hb hinter hlock hREF hvalid hnn ht
+
+/-- Analysis layer for documents whose components may be references of all three kinds (extends
+    `C01_analysis_doc_refs`, which has ingredient references only).  `blocks` is what the parser hands over;
+    every item satisfies the table-independent side conditions `SItem.SideOK` (no scaling-lock warning; a text
+    without inline quantity under INLINE_QUANTITIES; a timer ADVANCED_UNITS accepts), every `>>` entry is plain;
+    and the conditions on references hold, THREADED through the document (`xOK`, over the described blocks
+    `SBlock.x`: each item is checked against the tables of the components before it, the content of its
+    section so far and the number of finished sections): an ingredient is a plain definition, or a correctly
+    written `&name` (`IngrRefOKG`), or carries intermediate data whose target exists (`IngrOKG`); a cookware
+    item is a plain definition or a correctly written `#&name` (`CwRefOKG`).  Then `parse_events` returns the
+    recipe `xRun …`, a PURE function of the described blocks:
+    * `ingredients`: definitions appended as written; a `&name` appended as `asReference …` after the back-link
+      update of its definition; an intermediate reference appended as written with the relation
+      `interRefTarget` computes (`ingrPushG`);
+    * `cookware` likewise (`cwPushG`), `timers` as written;
+    * `sections`, step numbers per section, item indices (= table sizes), text paragraphs, `>>` map as in
+      `C01_analysis_doc`;
+    * diagnostics: only the `>>` deprecation notice, if any; no panic. -/
+theorem C01_analysis_doc_all_refs {α : Type} [Arith α] (env : Env) (input : Str) (blocks : List (SBlock α))
+    (hside : ∀ b ∈ blocks, b.SideOK env)
+    (hok : xOK env {} [] ⟨none, []⟩ 1 (blocks.map (SBlock.x env))) :
+    ∃ c : Col α, parseEvents env input (blocks.flatMap SBlock.events) = ⟨some c, c.diags, none⟩ ∧
+      c.sections = (xRun env {} [] ⟨none, []⟩ 1 [] (blocks.map (SBlock.x env))).secs ∧
+      c.ingredients = (xRun env {} [] ⟨none, []⟩ 1 [] (blocks.map (SBlock.x env))).T.ing ∧
+      c.cookware = (xRun env {} [] ⟨none, []⟩ 1 [] (blocks.map (SBlock.x env))).T.cw ∧
+      c.timers = (xRun env {} [] ⟨none, []⟩ 1 [] (blocks.map (SBlock.x env))).T.tm ∧
+      c.metaMap = (xRun env {} [] ⟨none, []⟩ 1 [] (blocks.map (SBlock.x env))).metaMap ∧
+      c.diags = deprecation (docSpans (docEntries blocks)) ∧
+      c.inlineQ = #[] ∧ c.frontMatter = none :=
+  rtax_parseEvents_doc env input blocks hside hok
+
+/-- **The round trip for documents with references, from the printed characters to the recipe.**  `doc` as
+    in `C01_recipe_doc` (steps of one or more lines, section lines, plain `>>` lines; the same hypotheses on the
+    syntax layers: `DocItem.ok`, `sepsOK`, `blankLinesOK`, well-spelledness, no front-matter fence;
+    `DocItem.extOK`, `DocItem.plain`), but the segments of a step are NOT restricted to plain definitions
+    (`SegX.simple` is replaced by `DocItem.lockOK`: `=` only on a numeric ingredient amount): an ingredient or
+    cookware item may carry `&` (`@&flour{50%g}`, `#&bowl{}`), an ingredient may be an intermediate reference
+    `@&(~1)dough{}` (`SegX.ingredientI`, all four forms, other modifier characters around).  The conditions
+    on the references are those of `C01_analysis_doc_all_refs`, stated on the ABSTRACT document
+    (`DocItem.x`: the components the printer intended, `absIngr` / `absCw` / `absTimer`) — so they and the
+    result are computable from what was printed (`C01_reference_conditions_check`; example below).  Then
+    `CooklangParser::parse` returns a recipe, no panic, and sections, the three tables, the `>>` map are
+    `xRun …` of the abstract document: a regular reference points to the last earlier non-REF definition of
+    its name, which lists it back; an intermediate reference points to the k-th step of its section / k-th
+    step back / k-th section (`C01_intermediate_target_spec`); the only diagnostic is the `>>` deprecation
+    notice.  Outside: ADVANCED_UNITS together with regular ingredient references (unit compatibility checks),
+    mode switches, front matter, text paragraphs at the document level. -/
+theorem C01_recipe_doc_refs {α : Type} [Arith α] (env : Env) (pre : List Tok) (doc : List (DocItem × List Tok))
+    (hpre : blankLinesOK pre = true) (hok : ∀ d ∈ doc, d.1.ok env.cs env.ext = true)
+    (hlock : ∀ d ∈ doc, d.1.lockOK = true) (hplain : ∀ d ∈ doc, d.1.plain env)
+    (hext : ∀ d ∈ doc, d.1.extOK α env)
+    (hrefs : xOK (α := α) env {} [] ⟨none, []⟩ 1 (doc.map (fun d => d.1.x)))
+    (hseps : sepsOK (doc.map (·.2)) = true) (hw : WellSpelled env.cs (pre ++ docSpec doc))
+    (hfm : parseFrontmatter env.cs (render (pre ++ docSpec doc)) = none) :
+    ∃ (c : Col α) (spans : List Span),
+      parseRecipe env (render (pre ++ docSpec doc)) = ⟨some c, c.diags, none⟩ ∧
+      c.sections = (xRun (α := α) env {} [] ⟨none, []⟩ 1 [] (doc.map (fun d => d.1.x))).secs ∧
+      c.ingredients = (xRun (α := α) env {} [] ⟨none, []⟩ 1 [] (doc.map (fun d => d.1.x))).T.ing ∧
+      c.cookware = (xRun (α := α) env {} [] ⟨none, []⟩ 1 [] (doc.map (fun d => d.1.x))).T.cw ∧
+      c.timers = (xRun (α := α) env {} [] ⟨none, []⟩ 1 [] (doc.map (fun d => d.1.x))).T.tm ∧
+      c.metaMap = (xRun (α := α) env {} [] ⟨none, []⟩ 1 [] (doc.map (fun d => d.1.x))).metaMap ∧
+      c.diags = deprecation spans ∧ spans.length = ((doc.map (·.1)).filter DocItem.isMeta).length ∧
+      c.inlineQ = #[] ∧ c.frontMatter = none :=
+  rtdr_parseRecipe_doc env pre doc hpre hok hlock hplain hext hrefs hseps hw hfm
+
+/-- the conditions on references are decidable: the computable check `xOKB` (name lookup with
+    `sameNameIdx`, the target is a definition, no conflicting modifier, amounts agree; the intermediate
+    target exists) implies them -/
+theorem C01_reference_conditions_check {α : Type} [Arith α] (env : Env) (blocks : List (XBlock α)) (T : XTbls α)
+    (secs : List Section) (cur : Section) (num : Nat) (h : xOKB env T secs cur num blocks = true) :
+    xOK env T secs cur num blocks :=
+  rtdr_xOKB env blocks T secs cur num h
+
+/-- a plain definition (`SegX.simple`) satisfies the lock condition of `C01_recipe_doc_refs` -/
+theorem C01_simple_lock_ok (seg : SegX) (h : seg.simple = true) : seg.lockOK = true := rtdr_simple_lockOK seg h
+
+/-! example: `Mix @flour{200%g} in #bowl{}.` / `Add @&flour{50%g} to @&(~1)dough{} in #&bowl{}.` /
+    `== Bake == ` / `Bake @&( = ~ 1 )?loaf{}.` under MODIFIERS + ALIAS + INTERMEDIATE_PREPARATIONS.  The
+    hypotheses hold (the reference conditions by the computable check); the result: `flour` lists its
+    reference 1 back, `dough` points to step position 0 of the unnamed section (the step before), `loaf` to
+    section 0 (one section back) and is optional; `bowl` likewise for cookware; item indices run through. -/
+def C01_refsExt : Ext :=
+  ⟨Gen.EXT_COMPONENT_MODIFIERS ||| Gen.EXT_COMPONENT_ALIAS ||| Gen.EXT_INTERMEDIATE_PREPARATIONS⟩
+def C01_refsEnv : Env := ⟨toyCharSpec, C01_refsExt, fun _ => none, fun _ _ => .ok, fun c => [c], 0⟩
+def C01_grams (n : String) : AQty := { val := .num (.int n.toList), unit := some [tk .word ['g']] }
+def C01_sp : Tok := tk .ws [' ']
+def C01_exRefsDoc : List (DocItem × List Tok) :=
+  [(.step [.text [tk .word "Mix".toList, C01_sp],
+           .ingredient { name := [tk .word "flour".toList], qty := some (C01_grams "200") } {},
+           .text [C01_sp, tk .word "in".toList, C01_sp],
+           .cookware { name := [tk .word "bowl".toList] } {},
+           .text [tk .dot ['.']]], [C01_nl, C01_nl]),
+   (.step [.text [tk .word "Add".toList, C01_sp],
+           .ingredient { mods := [.and], name := [tk .word "flour".toList], qty := some (C01_grams "50") } {},
+           .text [C01_sp, tk .word "to".toList, C01_sp],
+           .ingredientI [] [] { relative := true, digits := ['1'] } {} { name := [tk .word "dough".toList] } {},
+           .text [C01_sp, tk .word "in".toList, C01_sp],
+           .cookware { mods := [.and], name := [tk .word "bowl".toList] } {},
+           .text [tk .dot ['.']]], [C01_nl, C01_nl]),
+   (.sectionLine (some [tk .word "Bake".toList]) C01_exSPad, [C01_nl, C01_nl]),
+   (.step [.text [tk .word "Bake".toList, C01_sp],
+           .ingredientI [] [.question] { relative := true, isSection := true, digits := ['1'] } C01_exIPad
+             { name := [tk .word "loaf".toList] } {},
+           .text [tk .dot ['.']]], [C01_nl])]
+
+example : String.ofList (render (docSpec C01_exRefsDoc)) =
+    "Mix @flour{200%g} in #bowl{}.\n\nAdd @&flour{50%g} to @&(~1)dough{} in #&bowl{}.\n\n== Bake == \n\nBake @&( = ~ 1 )?loaf{}.\n" := by
+  decide
+example : (∀ d ∈ C01_exRefsDoc, d.1.ok C01_refsEnv.cs C01_refsEnv.ext = true) ∧
+    (∀ d ∈ C01_exRefsDoc, d.1.lockOK = true) ∧ sepsOK (C01_exRefsDoc.map (·.2)) = true := by decide
+example : WellSpelled toyCharSpec (docSpec C01_exRefsDoc) := by decide
+example : (parseFrontmatter toyCharSpec (render (docSpec C01_exRefsDoc))).isNone = true := by decide
+example : xOK (α := Rat) C01_refsEnv {} [] ⟨none, []⟩ 1 (C01_exRefsDoc.map (fun d => d.1.x)) :=
+  C01_reference_conditions_check _ _ _ _ _ _ (by decide)
+example : (∀ d ∈ C01_exRefsDoc, d.1.plain C01_refsEnv) ∧ (∀ d ∈ C01_exRefsDoc, d.1.extOK Rat C01_refsEnv) := by
+  constructor <;> intro d hd <;>
+    simp only [C01_exRefsDoc, List.mem_cons, List.not_mem_nil, or_false] at hd <;>
+    rcases hd with rfl | rfl | rfl | rfl <;> try trivial
+  all_goals
+    intro sg _
+    cases sg <;> first | trivial | (intro h; exact absurd h (by decide))
+example : (xRun (α := Rat) C01_refsEnv {} [] ⟨none, []⟩ 1 [] (C01_exRefsDoc.map (fun d => d.1.x))).secs =
+    [⟨none, [.step ⟨[.text "Mix ".toList, .ingredient 0, .text " in ".toList, .cookware 0, .text ".".toList], 1⟩,
+             .step ⟨[.text "Add ".toList, .ingredient 1, .text " to ".toList, .ingredient 2, .text " in ".toList,
+                     .cookware 1, .text ".".toList], 2⟩]⟩,
+     ⟨some "Bake".toList, [.step ⟨[.text "Bake ".toList, .ingredient 3, .text ".".toList], 1⟩]⟩] := by decide
+example : (xRun (α := Rat) C01_refsEnv {} [] ⟨none, []⟩ 1 [] (C01_exRefsDoc.map (fun d => d.1.x))).T.ing.toList.map
+      (fun i => (i.name, i.relation, i.modifiers)) =
+    [("flour".toList, ⟨.definition [1] true, none⟩, ⟨0⟩),
+     ("flour".toList, ⟨.reference 0, some .ingredient⟩, ⟨Modifiers.REF⟩),
+     ("dough".toList, ⟨.reference 0, some .step⟩, ⟨Modifiers.REF⟩),
+     ("loaf".toList, ⟨.reference 0, some .section⟩, ⟨Modifiers.REF ||| Modifiers.OPT⟩)] := by decide
+example : (xRun (α := Rat) C01_refsEnv {} [] ⟨none, []⟩ 1 [] (C01_exRefsDoc.map (fun d => d.1.x))).T.cw.toList.map
+      (fun i => (i.name, i.relation, i.modifiers)) =
+    [("bowl".toList, .definition [1] true, ⟨0⟩), ("bowl".toList, .reference 0, ⟨Modifiers.REF⟩)] := by decide
+/-- the conditions are needed: a reference without an earlier definition (`reference-not-found`), an
+    intermediate reference to a step that does not exist (`inter-ref-bounds`) fail the check -/
+example : xOKB (α := Rat) C01_refsEnv {} [] ⟨none, []⟩ 1
+    [.step [.ingr none (absIngr { mods := [.and], name := [tk .word "flour".toList] })]] = false := by decide
+example : xOKB (α := Rat) C01_refsEnv {} [] ⟨none, []⟩ 1
+    [.step [.ingr (some ⟨true, false, 1⟩) (absIngrM [.and] { name := [tk .word "dough".toList] })]] = false := by decide
 
 end Cook
